@@ -114,7 +114,35 @@ fn check_core<T: Ty>(x: &T) -> R {
     }
     check_null_dummy(&v, kind)?;
     check_accessors::<T>(&v, kind, Some(&want))?;
+    check_tampered_array::<T>(&v)?;
     check_cross(name, kind, Some(&want), &v)
+}
+
+/// An array value is a public enum variant and can hold what `From<Vec<E>>` never produces: a NULL element, or an element of
+/// another variant. Extracting such an array as `Vec<E>` must fail (error or panic), never return a vector made of the elements
+/// that happen to fit.
+fn check_tampered_array<T: Ty>(v: &Value) -> R {
+    let Value::Array(ty, Some(items)) = v else { return Ok(()) };
+    if items.is_empty() {
+        return Ok(());
+    }
+    let null_elem = items[0].as_null();
+    let foreign = if matches!(items[0], Value::Bool(_)) { Value::Int(Some(1)) } else { Value::Bool(Some(true)) };
+    for (what, extra) in [("null-element", null_elem), ("foreign-element", foreign)] {
+        for at in [0usize, items.len() / 2 + 1, items.len()] {
+            let mut tampered: Vec<Value> = (**items).clone();
+            tampered.insert(at.min(tampered.len()), extra.clone());
+            let tv = Value::Array(ty.clone(), Some(Box::new(tampered)));
+            let r = std::panic::catch_unwind(std::panic::AssertUnwindSafe(|| <T as ValueType>::try_from(tv.clone())));
+            if let Ok(Ok(y)) = r {
+                return fail(
+                    format!("array-with-{what}-extracted/{}", T::NAME),
+                    format!("{tv:?} extracted as {} gave {:?} instead of failing", T::NAME, y.canon()),
+                );
+            }
+        }
+    }
+    Ok(())
 }
 
 fn check_opt<T: Ty + Nullable>(x: &T) -> R {
@@ -378,7 +406,7 @@ BigDecimal digits and exponent, the UTC offset of DateTime<FixedOffset>/OffsetDa
         "from_value_tuple is documented (panic messages) to reject a value tuple of another arity; a panic is the expected refusal".into(),
     ];
     ctx.domain_restrictions = vec![
-        "arrays holding NULL elements cannot be produced by From<Vec<T>> and are not extracted (Vec<T>::try_from unwraps elements)".into(),
+        "arrays holding a NULL or foreign element cannot be produced by From<Vec<T>>; they are built by hand only to check that extracting them as Vec<T> fails".into(),
         "DateTime<Local> is kept one year inside chrono's range (local-offset lookup is chrono's, not sea-query's); \
 OffsetDateTime two days inside time's range so that its UTC instant exists".into(),
         "typed tuples use 5 fixed type layouts (all-i64, all-String, all-Option<i32>, two heterogeneous lists incl. Option, array, \
